@@ -92,6 +92,13 @@ def run(tier, seed, replay=None):
         rep.violation("write-fault", {"problem": "with writes failing after 1000 bytes: exit %s, files changed: %s" % (
             p.returncode, sorted(k for k in set(before) | set(after) if before.get(k) != after.get(k)))})
     shutil.rmtree(d, ignore_errors=True)
+    # the same fault at many positions of the output (inside the last tables too): nothing partial may stay
+    size, sweep = procscn.write_fault_sweep(build, work)
+    for lim, rc, exists, e135, changed in sweep:
+        stats["runs"] += 1
+        if exists or changed:
+            rep.violation("write-fault-%d" % lim, {"problem": "output of %d bytes, writes failing beyond byte %d: exit %s, output font %s, other files changed: %s"
+                                                    % (size, lim, rc, "left behind (partial)" if exists else "absent", changed)})
     rep.coverage.update({
         "programs": stats["runs"], "traces_validated_against_impl": stats["runs"], "disagreements_checked": len(rep.violations),
         "evaluations": stats["runs"], "distinct_nontrivial": len(distinct),
